@@ -289,6 +289,11 @@ pub trait Ingest: Chunky {
     /// false: the type has no such Extend impl
     fn extend_vals(&mut self, items: &[Self::Item]) -> bool;
     fn extend_refs(&mut self, items: &[Self::Item]) -> bool;
+    /// the same four paths fed from an iterator without a useful size_hint
+    fn collect_vals_opaque(items: &[Self::Item]) -> Self;
+    fn collect_refs_opaque(items: &[Self::Item]) -> Self;
+    fn extend_vals_opaque(&mut self, items: &[Self::Item]) -> bool;
+    fn extend_refs_opaque(&mut self, items: &[Self::Item]) -> bool;
 }
 impl<T: UniMerge + UniIngest> Ingest for U<T> {
     fn dflt() -> Self {
@@ -305,6 +310,18 @@ impl<T: UniMerge + UniIngest> Ingest for U<T> {
     }
     fn extend_refs(&mut self, items: &[f64]) -> bool {
         self.0.extend_refs(items)
+    }
+    fn collect_vals_opaque(items: &[f64]) -> Self {
+        U(T::collect_vals_opaque(items))
+    }
+    fn collect_refs_opaque(items: &[f64]) -> Self {
+        U(T::collect_refs_opaque(items))
+    }
+    fn extend_vals_opaque(&mut self, items: &[f64]) -> bool {
+        self.0.extend_vals_opaque(items)
+    }
+    fn extend_refs_opaque(&mut self, items: &[f64]) -> bool {
+        self.0.extend_refs_opaque(items)
     }
 }
 macro_rules! impl_ingest_pair {
@@ -325,6 +342,20 @@ macro_rules! impl_ingest_pair {
             }
             fn extend_refs(&mut self, items: &[(f64, f64)]) -> bool {
                 self.extend(items.iter());
+                true
+            }
+            fn collect_vals_opaque(items: &[(f64, f64)]) -> Self {
+                items.iter().copied().filter(|_| true).collect()
+            }
+            fn collect_refs_opaque(items: &[(f64, f64)]) -> Self {
+                items.iter().filter(|_| true).collect()
+            }
+            fn extend_vals_opaque(&mut self, items: &[(f64, f64)]) -> bool {
+                self.extend(items.iter().copied().filter(|_| true));
+                true
+            }
+            fn extend_refs_opaque(&mut self, items: &[(f64, f64)]) -> bool {
+                self.extend(items.iter().filter(|_| true));
                 true
             }
         }
